@@ -20,12 +20,12 @@ RULE = ('Reachable removal-enabled states of both classes (histories of 1-10 acc
         '(directed) a reciprocal pair or (undirected) a self-loop.')
 ASSUMPTIONS = ['e > t', 'encodings whose newline is the single byte 0x0A (the reader splits the binary stream on it)',
                'node ids contain no delimiter, comment marker or whitespace; ASCII-only ids when encoding=ascii']
-BUDGET = {'quick': {'cases': 8000, 'seconds': 45}, 'thorough': {'cases': 120000, 'seconds': 540}}
+BUDGET = {'quick': {'cases': 10000, 'seconds': 45}, 'thorough': {'cases': 120000, 'seconds': 540}}
 KINDS = ['add', 'add', 'add', 'add', 'add', 'add_from', 'path', 'cycle', 'recip', 'recip']
 
 
 def strategy(tier):
-    return st.tuples(gen.history(max_ops=10, rejects=False, kinds=KINDS, node_kinds=('int', 'safestr'), attrs=False),
+    return st.tuples(gen.tiered(tier, max_ops=10, rejects=False, kinds=KINDS, node_kinds=('int', 'safestr'), attrs=False),
                      iocommon.IO_PARAMS).map(lambda x: dict(x[0], io=x[1]))
 
 
